@@ -26,6 +26,8 @@ CONFIGS = {
     "tls12_resumed_id": "cv=3 sv=3 | resume=1 keepkeys=1",
     "tls12_resumed_ticket": "cv=3 sv=3 ticket=1 | resume=1 keepkeys=1",
     "tls13_resumed_psk": "cv=4 sv=4 ticket=1 | resume=1 keepkeys=1",
+    "tls13_resumed_early": "cv=4 sv=4 ticket=1 smaxed=5000 | resume=1 keepkeys=1",      # the client may send 0-RTT data, the server accepts it
+    "tls13_extpsk": "cv=4 sv=4 psk=1 smaxed=1000 suite=1301",                            # external PSK: client may send 0-RTT, server rejects and skips
 }
 
 
@@ -78,7 +80,7 @@ class Step:
         return None   # Handshake / Ignored decided with the record type
 
 STEP_RE = re.compile(r"(step|inj|replay):([cs]) pre=(\S+) (.*?)post=(\S+)")
-META_RE = re.compile(r"\[o=(\d+) i=(-?\d+) s=(-?\d+) l=(\d+) b=([0-9a-f]{4})\]")
+META_RE = re.compile(r"\[o=(\d+) i=(-?\d+) s=(-?\d+) l=(\d+) b=([0-9a-f]{4})(?: e=(\d))?\]")
 
 def parse_steps(segment):
     out = []
@@ -88,7 +90,7 @@ def parse_steps(segment):
         meta = None
         if mm:
             meta = {"o": int(mm.group(1)), "i": int(mm.group(2)), "s": int(mm.group(3)), "l": int(mm.group(4)),
-                    "b0": int(mm.group(5)[:2], 16), "b1": int(mm.group(5)[2:], 16)}
+                    "b0": int(mm.group(5)[:2], 16), "b1": int(mm.group(5)[2:], 16), "e": int(mm.group(6) or 0)}
         out.append(Step(kind, side, parse_snap(pre), parse_snap(post), body, meta))
     return out
 
@@ -124,7 +126,7 @@ def dec_line(pre, d, oracle):
     decfail = 1 if (d["prot"] != "good" and (pre["ae"] or (pre["bs"] > 1 and tot >= pre["ms"] + 1 + pre["bs"] and tot % pre["bs"] != 0))) else 0
     return "dec %s %s %d %d %s %d %d %d %d %d %d %d %d %d %s %d %d %d %d %d %d" % (
         st_fields(pre), d.get("hdr", "ok"), o, short, d["prot"], d.get("inner", o), d.get("ccs_ok", 1), d.get("alert_ok", 1),
-        d.get("lvl", 0), d.get("desc", 0), d.get("overflow", 0), d.get("empty", 0), d.get("rlen", max(d.get("l", 0) - 17, 0)), decfail,
+        d.get("lvl", 0), d.get("desc", 0), d.get("overflow", 0), d.get("empty", 0), d.get("rlen", (d.get("l", 0) - 17) if d.get("l", 0) >= 17 else -1), decfail,
         okind, oh, orr, ow, ov, oresp, odesc)
 
 def oracle_of(step, is_hs):
@@ -153,6 +155,9 @@ def describe_genuine(step, in_order=True, modified=False):
     sealed = m["s"] == 1
     d = dict(hdr="ok", outer=m["o"], inner=m["i"] if m["i"] >= 0 else m["o"], l=m["l"])
     d["prot"] = ("good" if (in_order and not modified) else "bad") if sealed else "plain"
+    if sealed and m.get("e"):
+        # 0-RTT data sealed under the client's early traffic key: verifies only at a server that accepted early data
+        d["prot"] = "good" if (step.pre["se"] and in_order and not modified) else "bad"
     if m["o"] == 20:
         d["ccs_ok"] = 1 if (sealed or (m["b0"] == 1 and m["l"] == 1)) else 0     # body of a sealed CCS is not visible on the wire
     if m["o"] == 21 and not sealed:
@@ -269,7 +274,9 @@ def analyse(ck, sr, scripts, outs, tag, inj_desc):
         return back
     rc, model, err = ck.run_lines(sr.drv, cases)
     # the ticket "in limbo" flag is owned by the handshake layer (an oracle in this model): not compared across handshake steps
-    lbnorm = lambda x: re.sub(r" lb=\d", " lb=-", x) if x.startswith("Handshake") else x
+    def lbnorm(x):
+        x = re.sub(r" lb=\d", " lb=-", x) if x.startswith("Handshake") else x
+        return re.sub(r" eds=(\d+)", lambda m: " eds=%d" % (int(m.group(1)) % (1 << 31)), x)      # 32-bit counter (printed mod 2^31)
     observed = [lbnorm(x) for x in observed]
     model = [lbnorm(x) for x in model]
     dis = ck.correspond(tag, cases, observed, model, nontrivial=lambda c, o: not o.startswith("Refuse"))
